@@ -72,25 +72,25 @@ impl Header {
             }
 
             bad_state_property_count =
-                token::header_field(reader, "bad state property count", limit, false)?;
+                token::header_field(reader, "bad state property count", usize::MAX, true)?;
 
             if !token::required_newline_or_space(reader)? {
                 break;
             }
             invariant_constraint_count =
-                token::header_field(reader, "invariant constraint count", limit, false)?;
+                token::header_field(reader, "invariant constraint count", usize::MAX, true)?;
 
             if !token::required_newline_or_space(reader)? {
                 break;
             }
             justice_property_count =
-                token::header_field(reader, "justice property count", limit, false)?;
+                token::header_field(reader, "justice property count", usize::MAX, true)?;
 
             if !token::required_newline_or_space(reader)? {
                 break;
             }
             fairness_constraint_count =
-                token::header_field(reader, "fairness constraint count", limit, false)?;
+                token::header_field(reader, "fairness constraint count", usize::MAX, true)?;
 
             token::required_newline(reader)?;
             break;
@@ -194,15 +194,18 @@ where
             ..OrderedAig::default()
         };
 
-        aig.latches.reserve(self.header.latch_count.min(MAX_RESERVE));
-        aig.outputs.reserve(self.header.output_count.min(MAX_RESERVE));
+        aig.latches
+            .reserve(self.header.latch_count.min(MAX_RESERVE));
+        aig.outputs
+            .reserve(self.header.output_count.min(MAX_RESERVE));
         aig.bad_state_properties
             .reserve(self.header.bad_state_property_count.min(MAX_RESERVE));
         aig.invariant_constraints
             .reserve(self.header.invariant_constraint_count.min(MAX_RESERVE));
         aig.fairness_constraints
             .reserve(self.header.fairness_constraint_count.min(MAX_RESERVE));
-        aig.and_gates.reserve(self.header.and_gate_count.min(MAX_RESERVE));
+        aig.and_gates
+            .reserve(self.header.and_gate_count.min(MAX_RESERVE));
 
         let justice_property_count = self.header.justice_property_count;
 
